@@ -1,9 +1,141 @@
-(* C20 — exported theorems only: each is closed by [exact] and followed by Print Assumptions. *)
+(* C20 — exported theorems only: each is closed by [exact] and followed by Print Assumptions.
+   Node SLO settings are layered default < cluster < first matching node override.
+
+   [faithful] = the code as it is (model checked against the real code on every run);
+   [ideal]    = the property statement read literally (the specification [prop_code] decides). *)
 From Coq Require Import List ZArith Bool.
-From Verif Require Import C20.Model C20.Spec C20.Proofs_Overlay.
+From Verif Require Import C20.Model C20.Spec C20.Codec
+  C20.Proofs_Overlay C20.Proofs_History C20.Proofs_Select C20.Proofs_Main C20.Proofs_Witness.
 Import ListNotations.
 Open Scope Z_scope.
 
-Theorem c20_absent_layer_neutral : forall am a, overlay am a (Obj None) = a.
-Proof. exact overlay_absent. Qed.
-Print Assumptions c20_absent_layer_neutral.
+(* --- the merge primitive (util.MergeCfg), for all trees of one Go type, all field paths:
+       the upper layer wins exactly where it sets the scalar (in both readings of lists) --- *)
+Theorem c20_overlay_field_law : forall am a s b p,
+  conforms s a = true -> conforms s b = true ->
+  lookup p (overlay am a b) = orelse (lookup p b) (lookup p a).
+Proof. exact lookup_overlay. Qed.
+Print Assumptions c20_overlay_field_law.
+
+(* --- the specification, field by field: every scalar and every list-valued field a node gets is
+       the value of the most specific layer that sets it: node entry, else cluster, else default --- *)
+Theorem c20_field_layering : forall s d c n,
+  conforms s d = true -> conforms s c = true -> conforms s n = true ->
+  layered_fields (layered ideal d c n) n c d.
+Proof. exact ideal_layered_fields. Qed.
+Print Assumptions c20_field_layering.
+
+(* --- the code as it is: the same law for every scalar path, except where a present upper layer
+       omits an always-marshalled scalar (resource.Quantity) --- *)
+Theorem c20_field_layering_code : forall ss d c n p,
+  conforms (SObj ss) d = true -> conforms (SObj ss) c = true -> conforms (SObj ss) n = true ->
+  req_gap p c = false -> (mentions n = true -> req_gap p n = false) ->
+  lookup p (layered faithful d c n) = first_some [lookup p n; lookup p c; lookup p d].
+Proof. exact faithful_scalar_layering. Qed.
+Print Assumptions c20_field_layering_code.
+
+(* --- first match: the node layer is the FIRST entry whose selector matches --- *)
+Theorem c20_first_match : forall m ls sd c es1 e es2,
+  sd_merge sd = true ->
+  forallb (fun x => negb (selecting ls x)) es1 = true -> selecting ls e = true ->
+  spec_effective m ls sd (SValue c (es1 ++ e :: es2)) = layered m (sd_default sd) c (e_strat e).
+Proof. exact spec_effective_first_match. Qed.
+Print Assumptions c20_first_match.
+
+Theorem c20_no_match_cluster : forall m ls sd c es,
+  sd_merge sd = true -> forallb (fun x => negb (selecting ls x)) es = true ->
+  spec_effective m ls sd (SValue c es) = overlay (m_arrmerge m) (sd_default sd) (prep m c).
+Proof. exact spec_effective_no_match. Qed.
+Print Assumptions c20_no_match_cluster.
+
+(* --- no leak, over all histories: deleting from every ConfigMap every entry that does not select
+       the node changes nothing of what the node observes after every event --- *)
+Theorem c20_no_leak : forall m sds ls ops,
+  run m (mkInput sds [ls] (map (restrict_op ls) ops)) = run m (mkInput sds [ls] ops).
+Proof. exact no_leak_run. Qed.
+Print Assumptions c20_no_leak.
+
+(* --- history: the cache after ANY sequence of events is what the from-scratch specification
+       computes from the latest applied, parseable text of each section --- *)
+Theorem c20_history_refines_spec : forall m i, run m i = spec_run m i.
+Proof. exact run_refines_spec. Qed.
+Print Assumptions c20_history_refines_spec.
+
+Theorem c20_absent_defaults : forall m sds ls ops c i sd,
+  nth_error sds i = Some sd -> nth i c SAbsent = SAbsent ->
+  effective ls (nth i (st_secs (run_state m sds (ops ++ [OSync c]))) (default_of sd))
+  = sd_default sd.
+Proof. exact history_absent_gives_default. Qed.
+Print Assumptions c20_absent_defaults.
+
+Theorem c20_parse_error_keeps_old : forall m sds ls ops c i sd,
+  nth_error sds i = Some sd -> nth i c SAbsent = SMalformed ->
+  effective ls (nth i (st_secs (run_state m sds (ops ++ [OSync c]))) (default_of sd))
+  = effective ls (nth i (st_secs (run_state m sds ops)) (default_of sd)).
+Proof. exact history_malformed_keeps_old. Qed.
+Print Assumptions c20_parse_error_keeps_old.
+
+(* --- the decision procedure run on the implementation's observables decides the property --- *)
+Theorem c20_prop_code_decides : forall i obs, prop_code i obs = 0 <-> C20_holds i obs.
+Proof. exact prop_code_spec. Qed.
+Print Assumptions c20_prop_code_decides.
+
+(* --- MAIN: for every well-formed history that avoids the two departures, the model of the code
+       satisfies the property after every event, for every node (stated on what the driver runs) --- *)
+Theorem c20_model_meets_spec : forall ss inp,
+  wf_input ss (decode inp) = true -> clean_input (decode inp) = true ->
+  prop_case inp (run_case inp) = 0.
+Proof. exact case_meets_spec. Qed.
+Print Assumptions c20_model_meets_spec.
+
+(* --- and on EVERY input the model either satisfies the property or is exactly one of the
+       known departures (so nothing else is hidden behind the known-finding signatures) --- *)
+Theorem c20_model_explained : forall inp,
+  prop_case inp (run_case inp) = 0 \/ finding_sig inp (run_case inp) <> 0.
+Proof. exact case_explained. Qed.
+Print Assumptions c20_model_explained.
+
+(* --- the two departures of the code from the property (witnesses = corpus/C20/layering/finding*.case) --- *)
+Theorem c20_bandwidth_reset_refuted :
+  wf_input koord_schemas (decode witness_bandwidth) = true
+  /\ prop_case witness_bandwidth (run_case witness_bandwidth) = 1
+  /\ finding_sig witness_bandwidth (run_case witness_bandwidth) = 1
+  /\ map (lookup [7]) (map (fun o => nth 3 o (Obj None)) (run faithful (decode witness_bandwidth))) = [Some 0]
+  /\ map (lookup [7]) (map (fun o => nth 3 o (Obj None)) (spec_run ideal (decode witness_bandwidth))) = [Some 1000].
+Proof. exact bandwidth_reset_refuted. Qed.
+Print Assumptions c20_bandwidth_reset_refuted.
+
+Theorem c20_blocks_merge_refuted :
+  wf_input koord_schemas (decode witness_blocks) = true
+  /\ prop_case witness_blocks (run_case witness_blocks) = 1
+  /\ finding_sig witness_blocks (run_case witness_blocks) = 2
+  /\ map (fun o => option_map (map (fun b => (lookup [0] b, lookup [1] b, lookup [2;0] b, lookup [2;1] b)))
+                              (blocks_of (nth 1 o (Obj None))))
+         (run faithful (decode witness_blocks))
+     = [Some [(Some 2, Some (-13), Some 100, Some 5)]]
+  /\ map (fun o => option_map (map (fun b => (lookup [0] b, lookup [1] b, lookup [2;0] b, lookup [2;1] b)))
+                              (blocks_of (nth 1 o (Obj None))))
+         (spec_run ideal (decode witness_blocks))
+     = [Some [(Some 2, None, None, Some 5)]].
+Proof. exact blocks_merge_refuted. Qed.
+Print Assumptions c20_blocks_merge_refuted.
+
+(* --- non-vacuity: the hypotheses hold on a non-trivial history over the real Go schemas --- *)
+Example c20_nonvacuous :
+  wf_input koord_schemas (decode example_clean) = true
+  /\ clean_input (decode example_clean) = true
+  /\ nontrivial_case example_clean = true
+  /\ prop_case example_clean (run_case example_clean) = 0.
+Proof. exact example_clean_ok. Qed.
+
+Example c20_nonvacuous_paths :
+  let d := Obj (Some [Leaf false (Some 1); Leaf true (Some 0)]) in
+  let c := Obj (Some [Leaf false None; Leaf true (Some 5)]) in
+  let n := Obj (Some [Leaf false (Some 7); Leaf true None]) in
+  conforms (SObj [SLeaf; SLeaf]) d = true /\ conforms (SObj [SLeaf; SLeaf]) c = true
+  /\ conforms (SObj [SLeaf; SLeaf]) n = true
+  /\ req_gap [0] c = false /\ req_gap [0] n = false /\ req_gap [1] n = true
+  /\ lookup [0] (layered faithful d c n) = Some 7
+  /\ lookup [1] (layered faithful d c n) = Some 0      (* the gap: reset instead of 5 *)
+  /\ lookup [1] (layered ideal d c n) = Some 5.
+Proof. vm_compute. repeat split; reflexivity. Qed.
